@@ -1,12 +1,20 @@
 package c02
 
 import (
+	"runtime/debug"
 	"testing"
 
 	"verif/harness/pbt"
 )
 
-func init() { pbt.Property("C02") }
+func init() {
+	pbt.Property("C02")
+	// The live heap of this process is a few MB while single cases allocate tens of MB (quadratic
+	// printers, 64 KB inputs): with the default setting the collector would start several times per
+	// case and its workers would spend most of the run contending for locks on a busy machine.
+	// (The allocation oracle reads the cumulative counter TotalAlloc, which does not depend on this.)
+	debug.SetGCPercent(1600)
+}
 
 func TestMain(m *testing.M) { pbt.Main(m) }
 func TestProps(t *testing.T) { pbt.RunAll(t) }
